@@ -127,8 +127,10 @@ func (f *Func) callGraph(args *argBuilder) (
 				continue
 			}
 
+			// Only other types: an output of the very same interface type
+			// is matched by the subtype rules like any other type.
 			v2, ok := raw2.(*typedOutputVertex)
-			if !ok || !v2.Type.Implements(v.Type) {
+			if !ok || v2.Type == v.Type || !v2.Type.Implements(v.Type) {
 				continue
 			}
 
